@@ -1354,8 +1354,8 @@ class CountStream:
 
     def abs_pull(self, it):
         # pulled one item at a time by a lazy consumer (generator expression, filter, map, a for loop with an exit); a consumer that has
-        # not stopped after the prefix the rule allows (default 64 items) is the analysis giving up, never a behaviour of the code
-        for i in range(getattr(it, 'STREAM_CAP', None) or 64):
+        # not stopped after the prefix the rule allows (default one million items; the interpreter's step budget ends a consumer that never stops) is the analysis giving up, never a behaviour of the code
+        for i in range(getattr(it, 'STREAM_CAP', None) or 1_000_000):
             yield K(self.start + i * self.step)
         raise Fail('an endless stream (itertools.count) was not left within the walked prefix')
 
@@ -2286,6 +2286,8 @@ def builtin(it, name, args, kw, n):
         r = hook(name, args, kw, n)
         if r is not None:
             return r
+    if name == 'enumerate' and args and hasattr(args[0], 'abs_pull'):
+        args = [IterV(gen=it.pull_iter(args[0], n))] + list(args[1:])
     if name in ('min', 'max', 'sum', 'sorted', 'list', 'tuple', 'set', 'frozenset', 'dict', 'bytes', 'bytearray') and args and isinstance(args[0], IterV):
         # these consume their argument completely: an iterator object is drained once, here (a model that looked at it twice would find
         # it empty the second time)
@@ -2420,7 +2422,7 @@ def builtin(it, name, args, kw, n):
         start = _int(st, 'enumerate start') if st is not None else 0
         return ListV([ListV([K(i + start), x], tup=True) for i, x in enumerate(items)])
     if name == 'zip':
-        if any(isinstance(a, IterV) for a in args):
+        if any(isinstance(a, IterV) or hasattr(a, 'abs_pull') for a in args):
             def zgen():
                 srcs = [it.pull_iter(a) for a in args]
                 while True:
